@@ -25,6 +25,17 @@ REQUIRED_THEOREMS = [
     "C04.between_keeps",
     "C04.sequential_error_surfaces",
     "C04.sequential_clean_after_call",
+    "C04.failed_start_raises_the_fault",
+    "C04.failed_start_leaves_clean",
+    "C04.failed_start_releases_backend",
+    "C04.next_call_after_failed_start_is_fresh",
+    "C04.second_call_correct_after_failed_starts",
+    "C04.second_call_correct_after_failed_starts_unordered",
+    "C04.history_leaves_idle",
+    "C04.sequential_failed_start",
+    "C04.failed_start_counterexample",
+    "C04.failed_start_unguarded_blocks_next_call",
+    "C04.no_fault_is_old_model",
     "M1L.reachable_inv",
     "M1L.reachable_inv2",
     "M1L.error_surfaces",
@@ -53,10 +64,15 @@ REQUIRED_THEOREMS = [
     "M1LSeq.stale_dispatch_new_counterexample",
 ]
 EXTRA_LEAN_MODULES = ("JoblibProofs.M1L", "JoblibProofs.M1LSeq",)
-EXTRA_LEAN_TARGETS = ("drv_m1l", "drv_m1lseq",)
+EXTRA_LEAN_TARGETS = ("drv_m1l", "drv_m1lseq", "drv_m1lu",)
 TRUSTED_EXTRA = [
     "M1L-Seq (lean/JoblibModel/ParallelLockSeq.lean, theorems M1LSeq.*): sequences of calls on one object at M1L granularity; between two calls the caller thread does nothing but return/raise and call again (one atomic step up to the lock of _reset_run_tracking); uuid4 call ids are pairwise distinct (modelled by a counter); the backend keeps calling back for batches of earlier calls from threads it does not join (worst case); termination of sequences is checked, not proved",
     "M1L (lean/JoblibModel/ParallelLock.lean, theorems M1L.*): a second, small-step, multi-threaded model of the same protocol; one atomic step = the code of one thread between two scheduling points (outermost acquire/release of Parallel._lock, a backend call, time.sleep, an unlocked access to _aborting/_exception/_iterating/_original_iterator/n_dispatched_tasks/n_completed_tasks/_jobs/tracker status), any number of callback threads, every interleaving; scope: one call on a fresh object, ordered modes, no timeout; tied to the code by step-log equality of forced real-thread schedules (instrumented lock, controllable backend, descriptor-instrumented shared attributes, no line numbers); assumed: threading.RLock mutual exclusion, atomicity of a single attribute load/store under the GIL; accesses to attributes outside the list and the input iterator's __next__ are atomic with their segment; termination under the drain schedule (completions, then callbacks, then the caller) is PROVED from every reachable state with an explicit bound (quiescent_termination*, measure 1300*W+100*P+100*L+R); termination under other fair schedules is not stated",
+    "start-up faults (lean/JoblibModel/ParallelStartup.lean, F52): one statement of Parallel._start_call raises per faulted call (len(iterable), "
+    "backend.configure, n_jobs == 0, backend.start_call, iter(iterable), the pre_dispatch resolution, islice); the CLASS of the exception a bad "
+    "pre_dispatch raises is an input of the model (taken from the harness table m1.BAD_PD, checked against the real Parallel by the event log), "
+    "not derived from JoblibModel/EvalExpr.lean; pre_dispatch faults are injected by assigning the public attribute Parallel.pre_dispatch "
+    "before the call; which code variant the model follows (startGuard) is chosen by a behavioural probe (m1.probe_start_guard)",
     "M1 granularity: completion callbacks are atomic and happen at hook points of the caller (configure, compute_batch_size, sleep, consumer "
     "pauses, inside backend.abort_everything, between two calls and after the last one); interleavings inside a callback or between two bytecodes of the caller are not in the model",
     "modelled, not verified: the backend contract (each submitted batch executed at most once, its callback invoked at most once), "
